@@ -8,3 +8,9 @@ package l4xmpp
 //@ requires wfm(cx)
 //@ safety C04
 //@ implements[C06] (m github.com/mholt/caddy-l4/layer4.ConnMatcher) Match
+
+// wire definition: the word "jabber" occurs in the first 50 bytes (the matcher needs all 50)
+//@ ensures[C06] err == nil || err == layer4.ErrConsumedAllPrefetchedBytes
+//@ ensures[C06] (err == layer4.ErrConsumedAllPrefetchedBytes) == (old(avail(cx)) < 50)
+//@ ensures[C06] err != nil ==> !matched
+//@ ensures[C14] err == nil ==> matched == exists i int :: 0 <= i && i <= 44 && old(bytes(cx.buf[cx.offset+i:cx.offset+i+6])) == "jabber"
